@@ -32,14 +32,17 @@ PKGS = {  # abstract package id -> (import path, package name)
     "orig": (MOD + "/orig/foo", "foo"),
     "alt": (MOD + "/alt/bar", "bar"),
     "same": (MOD + "/alt2/foo", "foo"),     # same package NAME as orig: qualifier collision
+    "third": (MOD + "/third/legacy", "legacy"),   # holds an (unconfigured) alias of the original type
 }
+MAX_SOLO = 48
 SEM = ("pos", "other", "srckind", "target", "level", "place")      # dimensions the contract speaks about (TLC state)
 OBS = ("templ", "listing", "fmt")                                   # how the case is observed / spelled (TLC constants)
 DIMS = SEM + OBS
 
 SHARED = {
     "orig/foo/t.go": "package foo\n\ntype T struct{ A int }\n\ntype U struct{ B int }\n\ntype TA = T\n",
-    "alt/bar/t.go": f'package bar\n\nimport "{MOD}/orig/foo"\n\ntype R struct{{ C int }}\n\n// RA is an alias: identical to the original type\ntype RA = foo.T\n',
+    "alt/bar/t.go": f'package bar\n\nimport "{MOD}/orig/foo"\n\ntype R struct{{ C int }}\n\ntype R2 struct{{ G int }}\n\n// RA is an alias: identical to the original type\ntype RA = foo.T\n',
+    "third/legacy/h.go": f'package legacy\n\nimport "{MOD}/orig/foo"\n\n// H is an alias in a third package; it never has a replace-type entry of its own\ntype H = foo.T\n',
     "alt2/foo/t.go": "package foo\n\ntype R struct{ D int }\n\ntype T struct{ E int }\n\ntype TA = T\n",
 }
 
@@ -180,7 +183,7 @@ class Case:
     # ---- source files
     def sources(self):
         files = {}
-        quals = {"orig": "foo.", "same": "foo2.", "alt": "bar."}
+        quals = {"orig": "foo.", "same": "foo2.", "alt": "bar.", "third": "legacy."}
         qname = self.target_pkg()[1]
         lines = []
         used = set()
@@ -213,6 +216,8 @@ class Case:
             imps.append(f'\tfoo2 "{PKGS["same"][0]}"')
         if "alt" in used:
             imps.append(f'\t"{PKGS["alt"][0]}"')
+        if "third" in used:
+            imps.append(f'\t"{PKGS["third"][0]}"')
         src = ["package src", ""]
         if imps:
             src += ["import ("] + imps + [")", ""]
@@ -363,6 +368,12 @@ def run_tree(ctx, binp, tree, runs, with_setting, probe_path):
             else:
                 for c in run.cases:
                     retry.append(Run(f"{run.rid}-{c.id}", [c], c.mapping() if run.root_mapping else None))
+        if len(retry) > MAX_SOLO:
+            # bound the cost of a tree in which every batch fails: judge a prefix, leave the rest unevaluated
+            for r in retry[MAX_SOLO:]:
+                per_case[r.cases[0].id] = None
+            ctx.note(f"{len(retry) - MAX_SOLO} cases left unevaluated after failed batches (only {MAX_SOLO} single-case re-runs per tree)")
+            retry = retry[:MAX_SOLO]
         if retry:
             ctx.note(f"{len(retry)} single-case re-runs after a failed batch ({'with' if with_setting else 'without'} the setting)")
         for run, res in ex.map(lambda r: work(r, True, "-solo"), retry):
@@ -475,7 +486,7 @@ def matches(o, oc):
 
 
 # ---------------------------------------------------------------------------------------------- compile oracle
-def build_tree(ctx, tree, cases):
+def build_tree(ctx, tree, cases, idpat=r"/(k\d+)/"):
     """-> {case id: error text} for cases whose packages do not load / compile."""
     rc, out, err = ctx.go(tree, "list", "-e", "-json=ImportPath,Error,DepsErrors", "./...", timeout=900)
     if rc != 0:
@@ -520,7 +531,7 @@ def build_tree(ctx, tree, cases):
             raise MachineryError("go build failed without per-package errors: " + (err + out)[-600:])
     res = {}
     for path, e in list(bad.items()) + [(k, "\n".join(v)) for k, v in errs.items()]:
-        m = re.match(re.escape(MOD) + r"/(k\d+)/", path + "/")
+        m = re.match(re.escape(MOD) + idpat, path + "/")
         if not m:
             raise MachineryError(f"package {path} outside any case does not build: {e[:300]}")
         res.setdefault(m.group(1), "")
@@ -549,6 +560,12 @@ def process_batch(ctx, binp, drv, probe_path, cases, bi, thorough, timing):
     t_runs = time.time() - t1
 
     failed_B = {}
+    skipped = [c for c in cases if resA[c.id] is None or resB[c.id] is None]
+    if skipped:
+        ctx.cov["unevaluated_after_failed_batches"] = ctx.cov.get("unevaluated_after_failed_batches", 0) + len(skipped)
+        cases = [c for c in cases if resA[c.id] is not None and resB[c.id] is not None]
+        if not cases:
+            raise MachineryError("every batch failed and no single case could be evaluated")
     for c in cases:
         ra, rb = resA[c.id], resB[c.id]
         if ra.code != 0:
@@ -692,6 +709,198 @@ def process_batch(ctx, binp, drv, probe_path, cases, bi, thorough, timing):
 
 
 
+
+# ---------------------------------------------------------------------------------------------- no-leak family
+LPKG = {"R": ("lk/r", "r"), "Rin": ("lk/r/inner", "inner"), "S": ("lk/s", "s")}      # abstract package -> (dir, name)
+LEAK_SRC = "package %s\n\nimport \"" + MOD + "/orig/foo\"\n\ntype I interface {\n\tM(x foo.T, u foo.U) (foo.T, foo.U)\n\tZ(s string) int\n}\n"
+LTO = {"T": "R", "U": "R2"}
+
+
+class LeakUnit:
+    """One package of one no-leak case: quacks like Case for observe_all."""
+    def __init__(self, lc, p):
+        self.lc, self.pkg = lc, p
+        self.id = f"{lc.id}.{p}"
+        self.templ, self.fmt = lc.templ, lc.fmt
+        self.dir = f"lkout/{lc.id}/{LPKG[p][1]}"
+        self.filename = "zz_probe.json" if lc.templ == "probe" else "zz_mocks.go"
+        self.file = f"{self.dir}/{self.filename}"
+        self.dstpath = f"{MOD}/{self.dir}"
+        self.path_to_id = {v[0]: k for k, v in PKGS.items()}
+        self.path_to_id[self.dstpath] = "dst"
+        self.rec = lc.rec["pkgs"][p]
+
+
+class LeakCase:
+    def __init__(self, idx, rec, templ, fmt):
+        self.id = f"L{idx}"
+        self.rec = rec
+        self.writes = sorted(tuple(w) for w in rec["writes"])
+        self.listed = rec["listed"]
+        self.templ, self.fmt = templ, ("noop" if templ == "probe" else fmt)
+        self.units = [LeakUnit(self, p) for p in ("R", "Rin", "S")]
+
+    def label(self):
+        return ",".join(f"{lv}:{k}" for lv, k in self.writes)
+
+    def rt(self, level):
+        m = {k: {"pkg-path": PKGS["alt"][0], "type-name": LTO[k]} for lv, k in self.writes if lv == level}
+        return {PKGS["orig"][0]: m} if m else None
+
+    def config(self, with_setting, probe_path):
+        conf = {"log-level": "info", "all": True, "formatter": self.fmt, "pkgname": "mk",
+                "dir": f"lkout/{self.id}/{{{{.SrcPackageName}}}}",
+                "filename": "zz_probe.json" if self.templ == "probe" else "zz_mocks.go"}
+        if self.templ == "probe":
+            conf["template"] = "file://" + probe_path
+            conf["require-template-schema-exists"] = False
+        else:
+            conf["template"] = self.templ
+        if self.templ == "matryer":
+            conf["template-data"] = {"skip-ensure": True}
+        if with_setting and self.rt("root"):
+            conf["replace-type"] = self.rt("root")
+        pk = {}
+        for p in ("R", "Rin", "S"):
+            if p == "Rin" and not self.listed:
+                continue
+            c = {}
+            if p == "R":
+                c["recursive"] = True
+            if with_setting and self.rt(p):
+                c["replace-type"] = self.rt(p)
+            pk[f"{MOD}/{LPKG[p][0]}"] = {"config": c}
+        conf["packages"] = pk
+        return conf
+
+    def sig(self, unit, kind, detail=""):
+        return {"family": "noleak", "writes": self.label(), "listed": self.listed, "pkg": unit.pkg, "templ": self.templ,
+                "fmt": self.fmt, "kind": kind, "detail": detail,
+                "status": ",".join(f"{k}:{v}" for k, v in sorted(unit.rec["status"].items()))}
+
+
+def process_leak(ctx, binp, drv, probe_path, lcases, thorough, timing):
+    """No-leak family: every case is one mockery run over three packages (without / with the settings)."""
+    t0 = time.time()
+    files = dict(SHARED)
+    for p, (d, name) in LPKG.items():
+        files[f"{d}/{name}.go"] = LEAK_SRC % name
+    trees = {False: ctx.new_world(files, module=MOD, name="leakA"), True: ctx.new_world(files, module=MOD, name="leakB")}
+
+    def one(args):
+        lc, ws = args
+        tree = trees[ws]
+        cfgp = tree / f"mockery-{lc.id}.yml"
+        cfgp.write_text(json.dumps(lc.config(ws, probe_path), indent=1))
+        tfile = tree / f"{lc.id}.trace"
+        env = vlib.go_env({"VERIFHOOK_TRACE": str(tfile)})
+        t = time.time()
+        try:
+            p = subprocess.run([str(binp), "--config", str(cfgp)], cwd=tree, env=env, capture_output=True, text=True,
+                               timeout=600, errors="replace")
+            code, out, err, to = p.returncode, p.stdout, p.stderr, False
+        except subprocess.TimeoutExpired:
+            code, out, err, to = -9, "", "timeout", True
+        evs = []
+        if tfile.exists():
+            for ln in tfile.read_text().splitlines():
+                try:
+                    evs.append(json.loads(ln))
+                except ValueError:
+                    pass
+        return lc, ws, vlib.RunResult(code, out, err, time.time() - t, to, evs)
+
+    with cf.ThreadPoolExecutor(max_workers=8) as ex:
+        results = list(ex.map(one, [(lc, ws) for lc in lcases for ws in (False, True)]))
+    res = {(lc.id, ws): r for lc, ws, r in results}
+    live = []
+    for lc in lcases:
+        ra, rb = res[(lc.id, False)], res[(lc.id, True)]
+        if ra.code != 0:
+            raise MachineryError(f"no-leak baseline run failed for {lc.label()}: {ra.brief()}")
+        if rb.code != 0:
+            ctx.violation(lc.sig(lc.units[0], "panic" if rb.panicked else "run-failed"),
+                          {"config": lc.config(True, "probe.templ"), "run_with_setting": rb.brief()})
+        else:
+            live.append(lc)
+    unitsA = [u for lc in lcases for u in lc.units]
+    unitsB = [u for lc in live for u in lc.units]
+    obsA = observe_all(ctx, drv, trees[False], unitsA, "LA")
+    obsB = observe_all(ctx, drv, trees[True], unitsB, "LB")
+    with cf.ThreadPoolExecutor(max_workers=2) as ex:
+        fa = ex.submit(build_tree, ctx, trees[False], unitsA, r"/lkout/(L\d+)/")
+        fb = ex.submit(build_tree, ctx, trees[True], unitsB, r"/lkout/(L\d+)/")
+        buildA, buildB = fa.result(), fb.result()
+    if buildA:
+        k, v = sorted(buildA.items())[0]
+        raise MachineryError(f"no-leak baseline tree does not compile, e.g. {k}: {v[:500]}")
+    rejected = set()
+    for lc in lcases:
+        for u in lc.units:
+            oa = obsA[u.id]
+            if "error" in oa or matches(oa, u.rec["base"]):
+                raise MachineryError(f"no-leak baseline observation of {u.id} is not the world's own signatures: {json.dumps(oa)[:600]}")
+    for lc in live:
+        for u in lc.units:
+            ctx.cov["evaluations"] += 1
+            ob = obsB[u.id]
+            if "error" in ob:
+                ctx.violation(lc.sig(u, "unreadable"), {"observed": ob, "file": u.file})
+                continue
+            why = [matches(ob, oc) for oc in u.rec["accept"]]
+            kind = None
+            if all(why):
+                kind = "sig" if all(w == "sig" for w in why) else "imports"
+            if kind is None and u.templ != "probe" and lc.id in buildB and u.dstpath in buildB[lc.id]:
+                kind = "compile"
+            if kind:
+                rejected.add(u.id)
+                leaked = [k for k, st in u.rec["status"].items() if st == "unchanged"]
+                ctx.violation(lc.sig(u, kind, "must-stay-unchanged:" + ",".join(sorted(leaked))),
+                              {"config": lc.config(True, "probe.templ"), "package": f"{MOD}/{LPKG[u.pkg][0]}",
+                               "status_per_key": u.rec["status"], "observed_with_settings": ob, "observed_without": obsA[u.id],
+                               "accept": u.rec["accept"], "compile_error": buildB.get(lc.id, "")[:800]})
+    # trace
+    events = []
+    for lc in lcases:
+        for ws in (False, True):
+            r = res[(lc.id, ws)]
+            if r.code != 0:
+                continue
+            obs = obsB if ws else obsA
+            events.append({"ev": "run", "with": ws, "run": lc.id,
+                           "files": [{"file": u.file, "template": ("file://" + probe_path) if u.templ == "probe" else u.templ,
+                                      "formatter": u.fmt} for u in lc.units]})
+            events += [e for e in r.trace if e.get("ev") in ("Collect", "FileBegin", "Stage", "Write", "Exit")]
+            for u in lc.units:
+                o = obs.get(u.id)
+                if not o or "error" in o:
+                    continue
+                built = u.templ == "probe" or not (ws and lc.id in buildB and u.dstpath in buildB[lc.id])
+                events.append({"ev": "lobs", "with": ws, "file": u.file, "case": u.id, "pkg": u.pkg,
+                               "writes": [list(w) for w in lc.writes], "mocks": o["mocks"], "imports": o["imports"], "built": built})
+    n, tlc_rej = validate(ctx, events, {})
+    tlc_rej = {cid for cid, ws in tlc_rej}
+    if tlc_rej != rejected:
+        raise MachineryError("TLC (ReplaceTypeTrace.tla) and the harness disagree on the no-leak observations: "
+                             f"only TLC {sorted(tlc_rej - rejected)[:5]}, only harness {sorted(rejected - tlc_rej)[:5]}")
+    ctx.cov["traces_validated_against_impl"] += n
+    ctx.cov["noleak_cases"] = len(lcases)
+    ctx.cov["noleak_packages_judged"] = len(unitsB)
+    ctx.cov["noleak_must_stay_unchanged_positions"] = sum(1 for lc in live for u in lc.units for st in u.rec["status"].values() if st == "unchanged")
+    ex_lc = next((lc for lc in live if ("root", "T") in lc.writes and ("R", "U") in lc.writes and lc.listed
+                  and not any(u.id in rejected for u in lc.units)), None)
+    if ex_lc is not None:
+        ctx.sample({"family": "noleak", "writes": ex_lc.label(), "Rin_listed": ex_lc.listed, "config": ex_lc.config(True, "probe.templ"),
+                    "per_package": {u.pkg: {"status": u.rec["status"],
+                                            "M": [x["p"] + "." + x["n"] for x in obsB[u.id]["mocks"][0]["methods"][0]["params"]]}
+                                    for u in ex_lc.units}})
+    timing["noleak"] = round(time.time() - t0, 1)
+    if not os.environ.get("VERIF_KEEP"):
+        for t in trees.values():
+            shutil.rmtree(t, ignore_errors=True)
+
+
 # ---------------------------------------------------------------------------------------------- main
 def run(ctx):
     thorough = ctx.thorough()
@@ -726,6 +935,45 @@ def run(ctx):
     ctx.cov["model_cases"] = len(rows)
     ctx.cov["model_predicted_violations"] = n_pred
     t_model = time.time() - t0
+
+    # ---- no-leak family: two settings at different levels, siblings / children that must stay untouched
+    if not ctx.replay or json.loads(open(ctx.replay).read())["sig"].get("family") == "noleak":
+        rl = ctx.tlc("ReplaceLeak", "ReplaceLeak.cfg", workers=1, timeout=600)
+        if not rl.ok:
+            raise MachineryError("TLC failed on ReplaceLeak:\n" + rl.tail())
+        lrecs = rl.prints("LCASE")
+        if len(lrecs) < 50:
+            raise MachineryError(f"no-leak model exported only {len(lrecs)} cases")
+        lrecs.sort(key=lambda r: (len(r["writes"]), json.dumps(r, sort_keys=True)))
+        small = [r for r in lrecs if len(r["writes"]) <= 2]
+        big = [r for r in lrecs if len(r["writes"]) > 2]
+        ctx.rng.shuffle(big)
+        pick = small + (big if thorough else big[:16])
+        if ctx.replay:
+            rp = json.loads(open(ctx.replay).read())["sig"]
+            pick = [r for r in lrecs if ",".join(f"{lv}:{k}" for lv, k in sorted(tuple(w) for w in r["writes"])) == rp["writes"]
+                    and r["listed"] == rp["listed"]]
+        lcases = []
+        for i, r in enumerate(pick):
+            if ctx.replay:
+                t, f = rp["templ"], rp["fmt"]
+            else:
+                t, f = obsdims["templ"][(i + ctx.seed) % len(obsdims["templ"])], obsdims["fmt"][(i // 3 + ctx.seed) % len(obsdims["fmt"])]
+            lcases.append(LeakCase(i, r, t, f))
+        if not ctx.replay:
+            if not any(st == "unchanged" and len(lc.writes) >= 2 for lc in lcases for u in lc.units for st in u.rec["status"].values()):
+                raise MachineryError("vacuous no-leak sample: nothing has to stay unchanged")
+            if not any(lc.listed and ("R", "U") in lc.writes and ("root", "T") in lc.writes for lc in lcases):
+                raise MachineryError("vacuous no-leak sample: no recursive parent + listed sub-package + top-level entry")
+        probe_path0 = str(ctx.scratch / "probe.templ")
+        shutil.copy(PROBE_FILE, probe_path0)
+        leak_timing = {}
+        process_leak(ctx, binp, drv, probe_path0, lcases, thorough, leak_timing)
+    else:
+        leak_timing = {}
+    if ctx.replay and json.loads(open(ctx.replay).read())["sig"].get("family") == "noleak":
+        ctx.cov["rule"] = "replay of one no-leak case"
+        return {"level": "model_checking", "exhaustive": False}
 
     # ---- 2. sample + full export
     if getattr(ctx, "replay", None):
@@ -809,6 +1057,7 @@ def run(ctx):
     ctx.cov["replayed_cases"] = len(cases)
     ctx.cov["replayed_by_template"] = {t: sum(1 for c in cases if c.templ == t) for t in ("testify", "matryer", "probe")}
     ctx.cov["replayed_by_level"] = {t: sum(1 for c in cases if c.level == t) for t in sorted({c.level for c in cases})}
+    timing.update(leak_timing)
     timing["model"] = round(t_model, 1)
     timing["export"] = round(t_exp, 1)
     ctx.cov["timing_s"] = timing
@@ -859,7 +1108,7 @@ def validate(ctx, events, obs_index):
     verdicts = {}
     for v in r.prints("OBSV"):
         verdicts[(v["case"], v["with"])] = v["ok"]
-    want = {(e["case"], e["with"]) for e in events if e["ev"] == "obs"}
+    want = {(e["case"], e["with"]) for e in events if e["ev"] in ("obs", "lobs")}
     if set(verdicts) != want:
         raise MachineryError(f"TLC judged {len(verdicts)} observations, {len(want)} were recorded")
     return len(verdicts), {k for k, v in verdicts.items() if not v}
